@@ -29,6 +29,11 @@ Cat == Catalogue(FMAXT) \o <<
   G("MultiLineString", <<<<<<1, 3>>, <<2, 3>>>>, <<<<4, 2>>, <<6, 2>>>>>>),
   G("BoundingBox", <<1, 0, 5, 3>>),
   G("TimeInterval", <<1, 5>>),
+  \* bent lines (a long shallow stroke then a short steep one; a fall then a slow rise) and a two-part line of mixed slopes
+  G("LineString", <<<<0, 1>>, <<3, 2>>, <<4, 4>>>>),
+  G("LineString", <<<<1, 4>>, <<2, 1>>, <<6, 2>>>>),
+  G("MultiLineString", <<<<<<0, 0>>, <<3, 1>>>>, <<<<4, 4>>, <<5, 1>>>>>>),
+  G("BoundingBox", <<1, 2, 4, 2>>),                              \* a flat box (low = high): zero area, positive duration
   G("TimeInterval", <<6, 6>>),                                   \* a second zero-length interval, at another instant than <<3, 3>>
   G("Point", <<3, 2>>),
   \* regions with interior rings, and geometries strictly inside / across the hole
@@ -51,6 +56,13 @@ FarCases == {[far |-> TRUE, i |-> p[1], j |-> p[2], tb |-> b[1], fb |-> b[2]] :
                 p \in {q \in Pairs : FarOk(q[1]) /\ FarOk(q[2]) /\
                                       (TimeOnlyPair(Cat[q[1]].type, Cat[q[2]].type) \/ BoxPair(Cat[q[1]].type, Cat[q[2]].type))},
                 b \in BufPairs}
+\* bracketed lines against time-only geometries, at the fine unit (1 ms ticks: the buffer is a few ms, so anything that
+\* displaces the buffered shape by a fraction of a ms shows) and at origin 0 only (oblique caps are not exact far away)
+BentCases == {[far |-> TRUE, i |-> p[1], j |-> p[2], tb |-> b[1], fb |-> b[2]] :
+                 p \in {q \in Pairs : /\ TimeOnlyPair(Cat[q[1]].type, Cat[q[2]].type)
+                                       /\ \E b \in BufPairs : Bracketed(Cat[q[1]], b[1], b[2]) \/ Bracketed(Cat[q[2]], b[1], b[2])},
+                 b \in BufPairs}
+IsBent(k) == k.far /\ (~ClosedExtent(Cat[k.i]) \/ ~ClosedExtent(Cat[k.j]))
 GA(k) == IF k.far THEN Shift(Cat[k.i], FarPad) ELSE Cat[k.i]
 GB(k) == IF k.far THEN Shift(Cat[k.j], FarPad) ELSE Cat[k.j]
 \* where the two geometry objects of a session come from (0 constructed, 1 model_copy(update = coordinates) of a used
@@ -59,7 +71,8 @@ GB(k) == IF k.far THEN Shift(Cat[k.j], FarPad) ELSE Cat[k.j]
 ProvOf(k) == <<(k.i + k.tb) % 4, (k.j + 2 * k.fb + 1) % 4>>
 Concrete(k) == IF k.far
                THEN [kind |-> "far", g1 |-> GA(k), g2 |-> GB(k), tb |-> k.tb, fb |-> k.fb,
-                     ds |-> [x \in DOMAIN FarBases |-> 0], bases |-> FarBases, prov |-> ProvOf(k)]
+                     ds |-> IF IsBent(k) THEN <<0>> ELSE [x \in DOMAIN FarBases |-> 0],
+                     bases |-> IF IsBent(k) THEN <<0>> ELSE FarBases, prov |-> ProvOf(k)]
                ELSE [kind |-> "lat", g1 |-> Cat[k.i], g2 |-> Cat[k.j], tb |-> k.tb, fb |-> k.fb, ds |-> Offsets, prov |-> ProvOf(k)]
 
 (* ---- Impl: the dispatch of compute_affinity ---- *)
@@ -74,7 +87,7 @@ ImplTimeTypes == {"TimeStamp", "TimeInterval"}
 Guard(iu) == IF iu[2] = 0 THEN <<0, 1>> ELSE iu
 Opaque == <<-1, 1>>            \* an area ratio computed by shapely: not predicted by the model
 
-Init == /\ c \in {k \in Cases : <<k.tb, k.fb>> \in Bufs(k.i, k.j)} \cup FarCases
+Init == /\ c \in {k \in Cases : <<k.tb, k.fb>> \in Bufs(k.i, k.j)} \cup FarCases \cup BentCases
         /\ pc = "prep1" /\ p1 = <<>> /\ p2 = <<>> /\ res = <<>>
 Prep1 == pc = "prep1" /\ p1' = Prepare(GA(c), c.tb) /\ pc' = "prep2" /\ UNCHANGED <<c, p2, res>>
 Prep2 == pc = "prep2" /\ p2' = Prepare(GB(c), c.tb) /\ pc' = "branch" /\ UNCHANGED <<c, p1, res>>
@@ -149,5 +162,12 @@ ASSUME HoleCasesPresent ==
     \E i, j \in 1..Len(Cat) : /\ Cat[i].type = "BoundingBox" /\ Cat[j].type = "MultiPolygon" /\ Holes(Cat[j]) # <<>>
                                /\ RectPair(Cat[i], Cat[j]) /\ RectIoU(Cat[i], Cat[j])[1] = 0
                                /\ TimeIoU(TimeExtent(Cat[i], FMAXT), TimeExtent(Cat[j], FMAXT))[1] > 0
+\* the bracket is an interval of admissible values around the closed form with exact end caps
+LawBracket == \A r \in Readings :
+    LET A == PExt128(g1, c.tb, c.fb, r)  B == PExt128(g2, c.tb, c.fb, r) IN
+    /\ A[1][1] <= A[2][1] /\ A[2][2] <= A[1][2] /\ B[1][1] <= B[2][1] /\ B[2][2] <= B[1][2]
+    /\ Inter1(A[2], B[2]) <= Inter1(A[1], B[1])
+    /\ Len1(A[1]) + Len1(B[1]) <= 32000
+ASSUME BentLinesPresent == \E i \in 1..Len(Cat) : Cat[i].type = "LineString" /\ Len(Cat[i].coordinates) >= 3 /\ Bracketed(Cat[i], 1, 1)
 ExtentsInRange == \A r \in Readings, d \in Ds : TIoU(g1, g2, d, r)[2] <= 32767
 =============================================================================
